@@ -17,6 +17,15 @@ func rulesC01(c *Ctx, r *Report) {
 	r.assume("fmt's %s writes a []byte operand verbatim")
 	ruleG1(c, r, "formats/fasta", "Fasta")
 	rulesEntryPoints(c, r, "formats/fasta")
+	rulesFastaWriter(c, r)
+	rulesPassAllFor(c, r, "formats/fasta", 2)
+	rulesNoBufferedPkg(c, r, "formats/fasta")
+	rulesWholeLines(c, r, "formats/fasta", "tokenizer")
+	rulesFastaAutomaton(c, r)
+}
+
+// rulesFastaWriter (FMT-CONST, W-HDR, W80): the writer side of the FASTA codec.
+func rulesFastaWriter(c *Ctx, r *Report) {
 	w := c.fn("formats/fasta", "(*Fasta).Write")
 	where := "formats/fasta.(*Fasta).Write"
 	if w == nil {
@@ -135,10 +144,6 @@ func rulesC01(c *Ctx, r *Report) {
 	r.check(okAll, "W80", where, "sequence lines", c.pos(line.call.Pos()),
 		fmt.Sprintf("lines are Sequence[i : min(i+%d, len)] for i = 0, %d, … < len, each written as \"%%s\\n\"; MarshalText's length formula uses the same %d (≤ 80)", step, step, step),
 		fmt.Sprintf("wrapping is inconsistent: starts at 0: %v, step %d, window width %d (want equal, ≤ 80), loop bound %s (want %s), line format %q (want \"%%s\\n\"), MarshalText divides by %d", okInit, step, width, bound, seqLen, *line.format, mtC))
-	rulesPassAllFor(c, r, "formats/fasta", 2)
-	rulesNoBufferedPkg(c, r, "formats/fasta")
-	rulesWholeLines(c, r, "formats/fasta", "tokenizer")
-	rulesFastaAutomaton(c, r)
 }
 
 func nonZero(m map[string]int64) []string {
